@@ -126,7 +126,7 @@ def execute(case, monitors, iter_cap=400):
                 info["sampler"] = s
                 try:
                     n2 = case.get("resume_n_total", n_total)
-                    s.run(n_total=n2, progress=False, resume_state_path=ck, save_every=save_every)
+                    s.run(n_total=n2, progress=bool(case.get("progress")), resume_state_path=ck, save_every=save_every)
                     info["completed"] = True
                     info["resumed"] = True
                     if inc.n_commits == 0:
@@ -152,7 +152,7 @@ def execute(case, monitors, iter_cap=400):
                 info["sampler"] = s
                 try:
                     n2 = case.get("resume_n_total", n_total)
-                    s.run(n_total=n2, progress=False, resume_state_path=ck, save_every=save_every)
+                    s.run(n_total=n2, progress=bool(case.get("progress")), resume_state_path=ck, save_every=save_every)
                     info["completed"] = True
                     info["resumed"] = ck is not None
                     for m in w.monitors:
